@@ -1354,7 +1354,7 @@ struct C19 {
         as.push("a shadow cell keeps at most 6 accesses per 8 bytes; eviction can only lose a report (counted in probe shadow_evictions), never invent one");
         ev["assumptions"] = as;
         ev["x_lock_variant"] = C19_LOCK_VARIANT;
-        ev["simulated_time_note"] = "no clock is read by the properties' code paths (gettimeofday is only a nonce for the internal generator and is served from a counter); sim_steps counts scheduler steps (yield points)";
+        ev["simulated_time_note"] = "no clock is read by the properties' code paths (gettimeofday is only a nonce for the internal generator and is served by the simulator: a per-thread counter, or, under the clock knob, one frozen instant for every thread -- fault.clock_frozen_reads counts those reads); sim_steps counts scheduler steps (yield points)";
     }
 };
 
